@@ -6,7 +6,7 @@ first statement of every function (go/ssa then spills results through a local an
 branch `if false { panic(..) }`, (4) an unused unexported field and a harmless method on every struct of package ast, (5) other spellings of comparisons in
 all packages at once (len(x) > 0 as != 0, == 0 as < 1, nil on the left, !(err == nil)), (6) an error built into a local
 before it is returned.
-Usage: benign_sweep.py [-j N]   exit 1 if any rule reports anything."""
+Usage: benign_sweep.py [-j N] [--rules R1,R2] [--json out.json]   exit 1 if any rule reports anything."""
 import re, json, glob, os, subprocess, sys, tempfile, concurrent.futures as cf
 HERE = os.path.dirname(os.path.dirname(os.path.abspath(__file__)))
 REPO = os.environ.get('VERIF_REPO', '/repo')
@@ -44,19 +44,26 @@ def fields_and_methods():
         ov[f] = s
     return ov
 
+RULES = 'all'
+
 def run(job):
     name, ov = job
     with tempfile.NamedTemporaryFile('w', suffix='.json', delete=False) as t:
         json.dump(ov, t)
     try:
-        r = subprocess.run([BIN, '-property', 'AUDIT', '-rules', 'all', '-evidence', '', '-overlay', t.name, '-repo', REPO, '-known', os.path.join(HERE, 'known_findings.json')], capture_output=True, text=True)
+        r = subprocess.run([BIN, '-property', 'AUDIT', '-rules', RULES, '-evidence', '', '-overlay', t.name, '-repo', REPO, '-known', os.path.join(HERE, 'known_findings.json')], capture_output=True, text=True)
     finally:
         os.unlink(t.name)
     bad = [l.strip()[:300] for l in (r.stdout + r.stderr).splitlines() if l.strip().startswith(('violated', 'undecided', 'LOAD'))]
     return name, r.returncode, bad
 
 def main():
+    global RULES
     j = int(sys.argv[sys.argv.index('-j') + 1]) if '-j' in sys.argv else 4
+    if '--rules' in sys.argv:
+        RULES = sys.argv[sys.argv.index('--rules') + 1]
+    out_json = sys.argv[sys.argv.index('--json') + 1] if '--json' in sys.argv else ''
+    results = []
     jobs = []
     for pk in PKGS:
         jobs.append(('println receiver / ' + pk, first_stmt(pk, 'println(%s)', True)))
@@ -83,7 +90,10 @@ def main():
             for b in bad[:6]:
                 print('    ', b)
             fail += rc != 0
+            results.append(dict(edit=name, outcome='silent' if rc == 0 else 'ALARM', reports=bad[:3]))
     print('SUMMARY %d edits, %d with reports' % (len(jobs), fail))
+    if out_json:
+        json.dump(dict(edits=len(jobs), with_reports=fail, results=results), open(out_json, 'w'), indent=1)
     sys.exit(1 if fail else 0)
 
 if __name__ == '__main__':
